@@ -232,7 +232,8 @@ def gen_scenario(c, i, seed, tier):
         pos = rng.choice(["first", "last", "uniform", "uniform", "uniform", "remove"])
         crashes.append({"pos": pos, "frac": rng.random(), "manner": rng.choice(CRASH_MANNERS), "k": rng.randrange(1, 4000)})
     return {"index": i, "label": "faults=%d crashes=%d" % (len(faults), len(crashes)), "order_seed": rng.randrange(1 << 30), "faults": faults, "crashes": crashes,
-            "final_runs": rng.choice([1, 1, 2]), "aslr_off": rng.random() < 0.3, "pad_env": rng.choice([0, 0, 17, 4096, 12345])}
+            "final_runs": rng.choice([1, 1, 2]), "aslr_off": rng.random() < 0.3, "pad_env": rng.choice([0, 0, 17, 4096, 12345]),
+            "root_via": rng.choice([None, None, None, None, "symlink", "dotdot"])}
 
 
 def apply_fault(root, c, f):
@@ -356,7 +357,22 @@ def exec_scenario(c, sc, keep=False):
         cnt("killed_executions")
         log.update(("crash %d %s %s|" % (idx, manner, st)).encode())
     # faults have stopped: one fault-free execution must converge
-    st, ops, out = run_generator(root, aslr_off=sc.get("aslr_off", False), pad_env=sc.get("pad_env", 0))
+    # configuration dimension: how the checkout path is spelled (a symlinked or non-canonical path to the same tree)
+    via = sc.get("root_via")
+    run_root = root
+    if via == "symlink":
+        run_root = root + "-ln"
+        if os.path.lexists(run_root):
+            os.remove(run_root)
+        os.symlink(root, run_root)
+        cnt("config_root_via_symlink")
+    elif via == "dotdot":
+        run_root = os.path.join(root, "wow_message_parser", "..")
+        cnt("config_root_via_dotdot")
+    st, ops, out = run_generator(run_root, aslr_off=sc.get("aslr_off", False), pad_env=sc.get("pad_env", 0))
+    if via == "symlink":
+        os.remove(run_root)
+    ops = [o.replace(run_root + os.sep, root + os.sep) for o in ops]
     cnt("clean_executions")
     cnt("file_ops_in_clean_executions", len(ops))
     ro = rel_ops(ops, root)
